@@ -585,12 +585,60 @@ fn selfcheck(ctx: &Ctx, alpha: &Alphabet<i64>) -> bool {
     ok
 }
 
+/// Weight lattice: at sizes 16, 32 and 64 every assignment of {light, heavy} weights to the
+/// `capacity` distinct items that fill the map (all 2^12 at size 16; at most 4 / 3 heavy items at
+/// 32 / 64), followed by the distinct item that forces the purge. This is the shape that decides
+/// the epsilon clause: where the heavy counters sit in table order relative to the purge sample.
+fn weight_lattice(ctx: &Ctx, ed: &Edges) {
+    let jobs: Vec<(usize, usize)> = if ctx.reduced { vec![(16, 3)] } else { vec![(16, 12), (32, ctx.tier.pick(3, 4)), (64, ctx.tier.pick(2, 3))] };
+    for (size, max_heavy) in jobs {
+        let cap = size * 3 / 4;
+        let items: Vec<i64> = (0..cap as i64).map(|i| 1000 + i * 7).collect();
+        // subsets of heavy items with at most max_heavy members
+        let mut subsets: Vec<Vec<usize>> = vec![vec![]];
+        let mut frontier: Vec<Vec<usize>> = vec![vec![]];
+        for _ in 0..max_heavy {
+            let mut next = vec![];
+            for sset in &frontier {
+                let start = sset.last().map(|x| x + 1).unwrap_or(0);
+                for i in start..cap {
+                    let mut n = sset.clone();
+                    n.push(i);
+                    next.push(n);
+                }
+            }
+            subsets.extend(next.iter().cloned());
+            frontier = next;
+        }
+        let total = subsets.len() as u64;
+        subsets.par_iter().for_each(|heavy| {
+            for hw in [20u64, 1000] {
+                let mut ops: Vec<Op<i64>> = items.iter().enumerate().map(|(i, &x)| Op::Up(x, if heavy.contains(&i) { hw } else { 1 })).collect();
+                ops.push(Op::Up(999_999, 1)); // the distinct item that overflows the map: purge
+                ops.push(Op::Up(items[0], 1));
+                let mut p = Pair::<i64>::new(size);
+                for (i, op) in ops.iter().enumerate() {
+                    let vs = p.apply(op, ed, &[], Mode::Full);
+                    let hist = || ops[..=i].to_vec();
+                    if !vs.is_empty() && fim::report(ctx, vs, size, &hist) {
+                        break;
+                    }
+                }
+            }
+        });
+        ctx.add_states(total * 2 * (cap as u64 + 2));
+        ctx.add_transitions(total * 2 * (cap as u64 + 2));
+        ctx.count(&format!("weight lattice size {size}: heavy-item subsets (<= {max_heavy} of {cap}) x heavy weight {{20,1000}}"), total * 2);
+    }
+}
+
 pub fn explore(ctx: &Ctx, obs: &Observer) {
     let ed = Edges::new();
     let done = std::sync::atomic::AtomicBool::new(false);
     std::thread::scope(|ts| {
         ts.spawn(|| fim::watchdog(ctx, &ed, &done));
         explore_inner(ctx, obs, &ed);
+        weight_lattice(ctx, &ed);
         done.store(true, std::sync::atomic::Ordering::Relaxed);
     });
 }
